@@ -27,6 +27,7 @@ fn when_name(w: &When) -> &'static str {
         When::AfterAction(_) => "immediately-after-action",
         When::WhileCompiling => "while-compiling",
         When::AfterMsg(_) => "during-mpc",
+        When::OutputInFlight => "while-result-is-being-delivered",
     }
 }
 
@@ -60,6 +61,8 @@ pub fn test_case(c: &Case) -> Result<CaseInfo, Fail> {
         let ok = match outs.as_slice() {
             [(_, Err(e), _)] if e == "Cancelled" => true,
             [(_, Ok(l), _)] if *l == want => true,
+            // an injected transport failure of the target's own constants exchange has already been reported
+            [(_, Err(e), _)] if e == "SendConstsError" && c.plan.fail_rpc.is_some() => true,
             _ => false,
         };
         if !ok {
@@ -110,6 +113,20 @@ fn run_unit(u: &Unit, emit: &mut dyn FnMut(UnitResult)) {
             combos.push(Plan { script: u.script.clone(), inject: Some((When::AfterMsg(k), u.target, crate::srv::explore::Stray::Run)), cancel: Some((When::AfterMsg(k), u.target)), ..Default::default() });
         }
     }
+    // a destination that is not instantaneous: cancel while the target's notification is in flight
+    combos.push(Plan { script: u.script.clone(), hold_outputs: true, cancel: Some((When::OutputInFlight, u.target)), ..Default::default() });
+    // a failing constants exchange of the target, cancel at every later point
+    let n = u.cfg.n();
+    if u.cfg.prog.consts_from[u.target] {
+        for to in (0..n).filter(|q| *q != u.target) {
+            for k in 0..=steps {
+                combos.push(Plan { script: u.script.clone(), fail_rpc: Some((crate::srv::RpcKind::Consts, u.target, to)), cancel: Some((When::Step(k), u.target)), ..Default::default() });
+                if k < steps {
+                    combos.push(Plan { script: u.script.clone(), fail_rpc: Some((crate::srv::RpcKind::Consts, u.target, to)), cancel: Some((When::AfterAction(k), u.target)), ..Default::default() });
+                }
+            }
+        }
+    }
     for plan in combos {
         let case = Case { cfg: u.cfg.clone(), plan };
         match test_case(&case) {
@@ -152,7 +169,7 @@ pub fn run(tier: Tier, seed: u64) -> i32 {
         return run_worker(units(tier, seed), k, of, run_unit);
     }
     let ctx = Ctx::new("C15", tier, seed, "fault_enumeration");
-    ctx.set_rule("systematic enumeration: cancel on each party (leader and followers; n=2 with constants from 0/1/2 parties, n=3) (i) at every quiescent point of a session, (ii) immediately after every explorer action without waiting for quiescence, (iii) while the compile thread is alive (spin on the OS thread count after each action), (iv) after the k-th MPC message for k in {1,3,10,25,last} with the computation held, (v) after a duplicate run request that the executing target has just rejected; oracle, applied once cancel() returned Ok: the state machine has stopped; if the policy was known and names a destination, that destination received exactly one notification - Cancelled or the real result - and nothing after the return; the party's concurrency budget is complete; a cancel that returns an error or never returns is not judged (counted); non-trivial = cancel that fired and returned Ok; distinct by hash of the case");
+    ctx.set_rule("systematic enumeration: cancel on each party (leader and followers; n=2 with constants from 0/1/2 parties, n=3) (i) at every quiescent point of a session, (ii) immediately after every explorer action without waiting for quiescence, (iii) while the compile thread is alive (spin on the OS thread count after each action), (iv) after the k-th MPC message for k in {1,3,10,25,last} with the computation held, (v) after a duplicate run request that the executing target has just rejected, (vi) while the target's result notification is in flight to a destination that is not instantaneous, (vii) at every point after an injected failure of the target's own constants exchange; oracle, applied once cancel() returned Ok: the state machine has stopped; if the policy was known and names a destination, that destination received exactly one notification - Cancelled or the real result - and nothing after the return; the party's concurrency budget is complete; a cancel that returns an error or never returns is not judged (counted); non-trivial = cancel that fired and returned Ok; distinct by hash of the case");
     ctx.assume("single-threaded runtime with exact quiescence; the multi-threaded variant is not claimed");
     let n_units = units(tier, seed).len();
     ctx.extra("work_units", json!(n_units));
